@@ -96,7 +96,9 @@ class PolarizedRays(RealRays):
         k1 = np.array([self.L, self.M, self.N]).T
 
         # find s-component
-        s = np.cross(k0, k1)
+        # k0 x k1 == k0 x (k1 - k0); the second form keeps its direction
+        # accurate when k1 is nearly parallel to k0
+        s = np.cross(k0, k1 - k0)
         mag = np.linalg.norm(s, axis=1)
 
         # handle case when mag = 0 (i.e., k0 parallel to k1)
